@@ -58,6 +58,8 @@ func runC15(c *core.Ctx) {
 		},
 	})
 	c.CasesPar("group", c.N(600, 8000), 4, func(k *core.Case) { c15Run(k) })
+	// one at a time: the goroutine census must be attributable
+	c.Cases("closecensus", c.N(64, 1200), func(k *core.Case) { c15CloseCensus(k) })
 }
 
 func c15Run(k *core.Case) {
@@ -613,4 +615,108 @@ func c15Run(k *core.Case) {
 	if k.Idx < 6 && gens >= 2 {
 		c.Sample(map[string]any{"case": k.ID, "observed": wit()})
 	}
+}
+
+// c15CloseCensus: closing the group ends the live generation, whether or not the application has
+// fetched it with Next. The heartbeat loop and the partition watcher are generation functions: they
+// are given long intervals here, so that they can only be gone when Close returns because the
+// generation was ended (context cancelled) and waited for, not because a tick found the connection
+// closed.
+func c15CloseCensus(k *core.Case) {
+	c := k.Ctx
+	r := k.R
+	net := fakenet.New()
+	cl := fakecluster.New(net)
+	defer cl.Close()
+	cl.AddBroker(1, "")
+	cl.AddTopic("t0", r.Range(1, 3), nil)
+	placement := core.Pick(r, "never-fetched", "never-fetched", "fetched", "second-not-fetched", "next-pending")
+	watch := r.Bool()
+	k.Describe(map[string]any{"list": "closecensus", "placement": placement, "watch_partitions": watch})
+	markers := []string{"kafka-go.(*Generation).heartbeatLoop", "kafka-go.(*Generation).partitionWatcher", "kafka-go.(*Generation).Start"}
+	base, _ := libGoroutines(markers...)
+	cg, err := kafka.NewConsumerGroup(kafka.ConsumerGroupConfig{
+		ID: "g", Brokers: []string{"b1:9092"}, Topics: []string{"t0"},
+		Dialer:            &kafka.Dialer{DialFunc: net.Dialer("cg"), ClientID: "cg", Timeout: 2 * time.Second},
+		HeartbeatInterval: 3 * time.Second, SessionTimeout: 30 * time.Second, RebalanceTimeout: 300 * time.Millisecond, JoinGroupBackoff: 5 * time.Millisecond,
+		WatchPartitionChanges: watch, PartitionWatchInterval: 4 * time.Second, Timeout: 2 * time.Second,
+	})
+	if err != nil {
+		panic(err)
+	}
+	// a generation is formed once the member's offset fetch was answered
+	formed := func(n int) bool {
+		cnt := 0
+		for _, ev := range cl.Journal() {
+			if ev.API == fakecluster.KOffsetFetch && ev.Body != nil && ev.Delivered() {
+				cnt++
+			}
+		}
+		return cnt >= n
+	}
+	waitFormed := func(n int) bool {
+		deadline := time.Now().Add(5 * time.Second)
+		for !formed(n) {
+			if time.Now().After(deadline) {
+				return false
+			}
+			time.Sleep(500 * time.Microsecond)
+		}
+		time.Sleep(2 * time.Millisecond) // let nextGeneration start the heartbeat loop and reach the hand-over
+		return true
+	}
+	ctx, cancel := context.WithCancel(context.Background())
+	defer cancel()
+	ok := true
+	switch placement {
+	case "never-fetched":
+		ok = waitFormed(1)
+	case "fetched":
+		if ok = waitFormed(1); ok {
+			gen, err := cg.Next(ctx)
+			if err == nil {
+				gen.Start(func(ctx context.Context) { <-ctx.Done() })
+			}
+		}
+	case "second-not-fetched":
+		if ok = waitFormed(1); ok {
+			gen, err := cg.Next(ctx)
+			if err == nil {
+				gen.Start(func(ctx context.Context) {}) // returns at once: ends generation 1, the group re-joins
+				ok = waitFormed(2)
+			}
+		}
+	case "next-pending":
+		go func() {
+			if gen, err := cg.Next(ctx); err == nil {
+				gen.Start(func(ctx context.Context) { <-ctx.Done() })
+			}
+		}()
+		ok = waitFormed(1)
+	}
+	if !ok {
+		c.Inconclusive(k.ID + ": no generation was formed within 5 s")
+		cg.Close()
+		return
+	}
+	during, _ := libGoroutines(markers...)
+	c.Eval(1)
+	done := make(chan struct{})
+	go func() { defer close(done); cg.Close() }()
+	select {
+	case <-done:
+	case <-time.After(20 * time.Second):
+		k.TimeViol("c15:close-hangs:"+placement, "ConsumerGroup.Close did not return within 20 s", nil)
+		return
+	}
+	// functions the application started on a handed-over generation return on cancellation; give the
+	// scheduler a moment, far below the 3 s / 4 s intervals of the generation's own functions
+	n, stacks := waitNoGoroutines(500*time.Millisecond, markers...)
+	if n > base {
+		k.Viol("c15:generation-functions-alive-after-close:"+placement, fmt.Sprintf("%d goroutine(s) of a generation (heartbeat loop / partition watcher / started function) are still running 500 ms after ConsumerGroup.Close returned (heartbeat interval 3 s, watch interval 4 s): the generation was not ended by Close", n-base), map[string]any{"goroutines": stacks, "placement": placement})
+	}
+	if during > base {
+		c.Count("closecensus_generation_goroutines_seen_before_close", 1)
+	}
+	c.Distinct(fmt.Sprintf("closecensus %s watch=%v", placement, watch))
 }
